@@ -2,7 +2,7 @@
    The floating-point simplex, presolve and scaling are untrusted witness producers.  These theorems say what an
    accepted witness implies for the LP exactly as the user stated it, for LPs of every size. *)
 From Coq Require Import QArith Qabs List Bool.
-From SV Require Import Vec LP Cert Cert_Proofs DriverModel Driver_Proofs.
+From SV Require Import Vec LP Cert Cert_Proofs DriverModel Driver_Proofs RatGateModel SolveGateModel SolveGate_Proofs.
 Import ListNotations.
 Local Open Scope Q_scope.
 
@@ -48,7 +48,7 @@ Print Assumptions C01_verdicts_exclusive.
    with a stored solution that was computed on the user's LP itself (not simplified, not scaled) or that passed
    _verifySolutionReal in the user's problem space (all four violations below their tolerance). *)
 Theorem C01_optimal_is_gated :
-  forall P orc oscaled s0 r, optimize P orc oscaled FUEL s0 = Done r -> status r = OPTIMAL -> sol_ok r = true.
+  forall P orc oscaled s0 r, optimize P orc oscaled FUEL s0 = Done r -> DriverModel.status r = DriverModel.OPTIMAL -> sol_ok r = true.
 Proof. exact optimal_is_gated. Qed.
 Print Assumptions C01_optimal_is_gated.
 
@@ -67,6 +67,62 @@ Theorem C01_driver_terminates :
 Proof. exact driver_terminates. Qed.
 Print Assumptions C01_driver_terminates.
 
+(* ---- the in-tree verification gate (soplex.hpp getBoundViolation / getRowViolation / getDualViolation / getRedCostViolation and
+   the comparison of _verifySolutionReal), modelled in SolveGateModel.v and compared with the code on injected solutions. ---- *)
+
+(* Each of the four bits is exactly the statement "some entry violates by the tolerance or more": the violation functions are
+   sound and complete for what they look at (bounds; sides of the row ACTIVITY; multiplier signs against the BASIS STATUS). *)
+Theorem C01_gate_bits_characterised :
+  forall tf t_o p x y d rst cst, 0 < tf -> 0 < t_o ->
+    (Qle_bool tf (fst (bound_violation p x)) = false <->
+       forall j, (j < ncols p)%nat -> range_ok tf (c_lo (colj p j)) (c_up (colj p j)) (vnth x j)) /\
+    (Qle_bool tf (fst (row_violation p x)) = false <->
+       forall i, (i < nrows p)%nat -> range_ok tf (r_lhs (rowi p i)) (r_rhs (rowi p i)) (activity p i x)) /\
+    (Qle_bool t_o (fst (dual_violation p rst y)) = false <->
+       forall i, (i < nrows p)%nat -> sign_ok t_o (maximize p) (stat rst i) (vnth y i)) /\
+    (Qle_bool t_o (fst (redcost_violation p cst d)) = false <->
+       forall j, (j < ncols p)%nat -> sign_ok t_o (maximize p) (stat cst j) (vnth d j)).
+Proof. exact gate_bits_spec. Qed.
+Print Assumptions C01_gate_bits_characterised.
+
+(* A passed gate, TOGETHER WITH the three things it does not look at (slack = activity, reduced cost = c - A^T y, every non-basic
+   status names a bound the value sits at) and the objective clause, gives a certificate accepted by check_opt_tol: all clauses
+   of the property hold for the user's LP with the tolerances (feastol + es, opttol + ed, tc, tv). *)
+Theorem C01_gate_implies_certificate :
+  forall tf t_o es ed tcc tvv p x s y d v rst cst,
+    0 < tf -> 0 < t_o -> 0 <= es -> 0 <= ed ->
+    length x = ncols p -> length d = ncols p -> length s = nrows p -> length y = nrows p ->
+    gate_passes tf t_o p x y d rst cst = true ->
+    (forall i, (i < nrows p)%nat -> Qabs_le (vnth s i - activity p i x) es = true) ->
+    (forall j, (j < ncols p)%nat -> Qabs_le (vnth d j - redcost p y j) ed = true) ->
+    (forall j, (j < ncols p)%nat -> status_consistent tcc (stat cst j) (c_lo (colj p j)) (c_up (colj p j)) (vnth x j) = true) ->
+    (forall i, (i < nrows p)%nat -> status_consistent tcc (stat rst i) (r_lhs (rowi p i)) (r_rhs (rowi p i)) (vnth s i) = true) ->
+    Qabs_le (v - objective p x) (tvv * (1 + Qabs v)) = true ->
+    check_opt_tol {| tp := tf + es; td := t_o + ed; tc := tcc; tv := tvv |} p x s y d v = true.
+Proof. exact gate_implies_cert. Qed.
+Print Assumptions C01_gate_implies_certificate.
+
+(* The gate never lets a primal violation of the tolerance or more pass. *)
+Theorem C01_gate_rejects_primal_violation :
+  forall tf t_o p x y d rst cst, 0 < tf ->
+    (exists j l, (j < ncols p)%nat /\ c_lo (colj p j) = Some l /\ tf <= l - vnth x j) \/
+    (exists j u, (j < ncols p)%nat /\ c_up (colj p j) = Some u /\ tf <= vnth x j - u) \/
+    (exists i l, (i < nrows p)%nat /\ r_lhs (rowi p i) = Some l /\ tf <= l - activity p i x) \/
+    (exists i u, (i < nrows p)%nat /\ r_rhs (rowi p i) = Some u /\ tf <= activity p i x - u) ->
+    gate_passes tf t_o p x y d rst cst = false.
+Proof. exact gate_rejects_primal_violation. Qed.
+Print Assumptions C01_gate_rejects_primal_violation.
+
+(* The gate alone is NOT the certificate: it trusts the basis statuses.  min x, 0 <= x <= 10 with x = 5 reported ON_LOWER and
+   reduced cost 1 passes the gate although x is not optimal; the independent checker rejects it (sign condition without a
+   tight bound).  This is why every OPTIMAL answer is judged by check_opt_tol and not by the code's own gate. *)
+Theorem C01_gate_alone_is_not_a_certificate_refuted :
+  gate_passes (1 # 1000000) (1 # 1000000) ex_gate_lp [5] [] [1] [] [ON_LOWER] = true /\
+  check_opt_tol {| tp := 1 # 1000000; td := 1 # 1000000; tc := 1 # 10000; tv := 1 # 10000000 |} ex_gate_lp [5] [] [] [1] 5 = false /\
+  ~ optimal ex_gate_lp [5].
+Proof. exact gate_alone_is_not_a_certificate. Qed.
+Print Assumptions C01_gate_alone_is_not_a_certificate_refuted.
+
 (* ---- non-vacuity ---- *)
 Definition ex_orec (t : st) (vfail : bool) : orec :=
   {| o_simp := S_OKAY; o_scaled := true; o_status := t; o_throw := false; o_vbits := (false, vfail, false, false);
@@ -75,13 +131,13 @@ Definition ex_params : dparams :=
   {| p_simp := true; p_scaler := true; p_persist := true; p_ensureray := false; p_objlim := false |}.
 Definition ex_state : dstate :=
   {| simp_on := false; scaler_on := true; loaded := true; scaled := false; sol_scaled := false; intl := false;
-     has_basis := false; status := OTHER 0; has_sol := false; has_ray := false; has_farkas := false; apply_pol := false;
+     has_basis := false; DriverModel.status := OTHER 0; has_sol := false; has_ray := false; has_farkas := false; apply_pol := false;
      objlim_en := true; opt_calls := 0; unsc_calls := 0; sol_space := user_space; sol_ok := false; frame := O; trace := [] |}.
 (* presolved + persistently and internally scaled solve; the row violation fails the verification once, the LP is unscaled
    and solved again without preprocessing: two inner solves, OPTIMAL with a gated solution in user space *)
 Example C01_ex_driver_run :
-  match optimize ex_params (fun k => ex_orec OPTIMAL (Nat.eqb k 0)) true FUEL ex_state with
-  | Done r => status r = OPTIMAL /\ sol_ok r = true /\ frame r = 2%nat /\ scaled r = false /\ is_user_space (sol_space r) = true
+  match optimize ex_params (fun k => ex_orec DriverModel.OPTIMAL (Nat.eqb k 0)) true FUEL ex_state with
+  | Done r => DriverModel.status r = DriverModel.OPTIMAL /\ sol_ok r = true /\ frame r = 2%nat /\ scaled r = false /\ is_user_space (sol_space r) = true
   | _ => False
   end.
 Proof. vm_compute. repeat split. Qed.
@@ -96,3 +152,9 @@ Example C01_ex_optimal : optimal ex_lp [2; 0].
 Proof. apply C01_exact_certificate_optimal with (y := [1]). vm_compute. reflexivity. Qed.
 Example C01_ex_dual_bound : dual_bound ex_lp [1] = Some (5 # 1) \/ exists b, dual_bound ex_lp [1] = Some b /\ b == 5.
 Proof. right. eexists. split. vm_compute. reflexivity. reflexivity. Qed.
+(* a vertex with consistent statuses passes the gate and the theorem's conclusion holds *)
+Example C01_ex_gate :
+  gate_passes (1 # 1000000) (1 # 1000000) ex_lp [2; 0] [1] [0; 1] [ON_LOWER] [BASIC; ON_LOWER] = true /\
+  check_opt_tol {| tp := (1 # 1000000) + 0; td := (1 # 1000000) + 0; tc := 0; tv := 0 |} ex_lp [2; 0] [2] [1] [0; 1] 5 = true.
+Proof. split; vm_compute; reflexivity. Qed.
+
